@@ -98,6 +98,13 @@ func protoBases() []NamedBase {
 			ctor("rectangle3D", "Rectangle3D", 3, nil, fld("r", tRef("rectangle", true, aN(7)))),
 			fn("getRectangle", 4, tRef("Rectangle3D", false), fld("id", tInt())),
 		}},
+		// TL primer: rectangle2D r:(rectangle 3) -- the constant sets bits 0 and 1 only, bit 2 is used by the outer type itself
+		{"primer/rectangle2D", Schema{
+			ctor("point", "Point", 1, []string{"F"}, mfld("x", tInt(), "F", 0), mfld("y", tInt(), "F", 1)),
+			ctor("rectangle", "Rectangle", 2, []string{"F"}, fld("a", tRef("point", true, aR("F"))),
+				mfld("color", tInt(), "F", 2)),
+			ctor("rectangle2D", "Rectangle2D", 3, nil, fld("r", tRef("rectangle", true, aN(3)))),
+		}},
 		// implicitly tagged combinators of prototype.tl: service4.object (used bare only, here with a mask),
 		// service1.Value (union, boxed), integer (bare in benchObject), tasks.taskInfo-like holder, service1.get
 		{"proto/implicitTags", Schema{
